@@ -21,17 +21,32 @@ pub trait ParserListener { }
 #[verifier::external_type_specification] #[verifier::reject_recursive_types(T)] pub struct ExParser<'a, T: ParserListener + Send>(Parser<'a, T>);
 
 /// Everything a Parser can reach besides its own `taking_plain_text` flag: the suspended coroutine (its position
-/// inside an escape sequence and its locals) and the shared listener.  Abstract.
-pub struct World { pub id: int }
+/// inside an escape sequence and its locals) and the shared listener.  As a ghost record:
+///   consumed = every character the coroutine has been sent so far (its position is `run(consumed).0`),
+///   log      = every event the listener has received so far (from the coroutine AND from feed()'s fast path),
+///   utf8     = the shared `use_utf8` flag the coroutine reads (ASSUMED constant while a sequence is in flight).
+pub struct World { pub consumed: Seq<char>, pub log: Seq<Ev>, pub utf8: bool }
 pub uninterp spec fn world_parts<'a, T: ParserListener + Send + 'a>(fsm: Generator<'a, String, Option<bool>>, st: Arc<Mutex<ParserState>>, l: Arc<Mutex<T>>) -> World;
 /// a function of every field except `taking_plain_text`
 pub open spec fn world_of<'a, T: ParserListener + Send + 'a>(p: Parser<'a, T>) -> World { world_parts(p.parser_fsm, p.parser_state, p.listener) }
 
-// the two things feed() does with a character, as deterministic functions of the world (ASSUMED:
-// generator-rs resumes the coroutine where it yielded; the coroutine and the listener are deterministic)
-pub uninterp spec fn w_draw(w: World, c: char) -> World;
-pub uninterp spec fn w_send(w: World, c: char) -> (World, bool);
-pub uninterp spec fn is_special(c: char) -> bool;
+/// the documented SPECIAL set (C03): ESC, the 8-bit CSI and OSC introducers and the C0 controls BEL BS HT LF VT FF CR SO SI.
+/// (`Parser::is_special_start` and the `SPECIAL` table are proved against this, see parser.spec.)
+pub open spec fn is_special(c: char) -> bool { c as u32 == 0x1b || c as u32 == 0x9b || c as u32 == 0x9d || is_basic(c) }
+/// position of the suspended coroutine in the grammar
+pub open spec fn wstate(w: World) -> St { run(w.consumed, w.utf8).0 }
+
+// The two things feed() does with a character, as functions of the world.
+// w_draw: the listener receives draw(c).
+// w_send: THE LINK BETWEEN UNITS `parser` AND `fsm` (ASSUMED: generator-rs resumes the closure where it yielded and runs it to
+// its next yield).  Unit `fsm` proves of the closure text that between two yields it consumes exactly the character sent,
+// emits exactly `step(state, c).1` and yields Some(true) exactly when the new state is Ground (co_next's pre/postconditions);
+// this definition says that that is what `parser_fsm.send(c)` does.
+pub open spec fn w_draw(w: World, c: char) -> World { World { consumed: w.consumed, log: w.log.push(Ev::Draw { c: c }), utf8: w.utf8 } }
+pub open spec fn w_send(w: World, c: char) -> (World, bool) {
+    let s = step(wstate(w), c, w.utf8);
+    (World { consumed: w.consumed.push(c), log: w.log + s.1, utf8: w.utf8 }, s.0 is Ground)
+}
 
 /// observable parser state: (world, taking_plain_text)
 pub open spec fn pstep(s: (World, bool), c: char) -> (World, bool) {
@@ -77,15 +92,89 @@ pub proof fn lemma_pfold_empty(s: (World, bool)) //#lemma: C02
 {
 }
 
+// ---- composition of Parser::feed with the recogniser (C03/C19): the events of feed(data) are the documented grammar's ----
+/// one character of the documented grammar as seen from feed(): in the ground state a non-special character is text;
+/// everything else is the recogniser's `step`
+pub open spec fn gstep(st: St, c: char, utf8: bool) -> (St, Seq<Ev>) {
+    if st is Ground && !is_special(c) { (St::Ground, seq![Ev::Draw { c: c }]) } else { step(st, c, utf8) }
+}
+pub open spec fn gfold(st: St, data: Seq<char>, utf8: bool) -> (St, Seq<Ev>)
+    decreases data.len(),
+{
+    if data.len() == 0 { (st, Seq::<Ev>::empty()) }
+    else {
+        let a = gstep(st, data[0], utf8);
+        let b = gfold(a.0, data.drop_first(), utf8);
+        (b.0, a.1 + b.1)
+    }
+}
+/// Parser::feed's fold (what unit `parser` proves feed() computes) emits exactly the grammar's events, keeps the
+/// coroutine at the grammar's state and keeps `taking_plain_text == (state is Ground)` -- from any world in which the
+/// flag is right, for data of any length.
+pub proof fn lemma_feed_grammar(w: World, flag: bool, data: Seq<char>) //#lemma: C03 C19
+    requires flag == (wstate(w) is Ground),
+    ensures ({
+        let r = pfold((w, flag), data);
+        let g = gfold(wstate(w), data, w.utf8);
+        r.0.log =~= w.log + g.1 && wstate(r.0) == g.0 && r.1 == (g.0 is Ground) && r.0.utf8 == w.utf8
+    }),
+    decreases data.len(),
+{
+    if data.len() == 0 {
+        assert(w.log + Seq::<Ev>::empty() =~= w.log);
+    } else {
+        let c = data[0];
+        let s1 = pstep((w, flag), c);
+        let a = gstep(wstate(w), c, w.utf8);
+        if flag && !is_special(c) {
+            assert(s1.0.consumed == w.consumed);
+            assert(s1.0.log =~= w.log + a.1);
+        } else {
+            lemma_run_push(w.consumed, c, w.utf8);
+            assert(a == step(wstate(w), c, w.utf8));
+        }
+        assert(wstate(s1.0) == a.0);
+        assert(s1.1 == (a.0 is Ground));
+        lemma_feed_grammar(s1.0, s1.1, data.drop_first());
+        let b = gfold(a.0, data.drop_first(), w.utf8);
+        assert((w.log + a.1) + b.1 =~= w.log + (a.1 + b.1));
+    }
+}
+/// from a newly created parser (nothing consumed, nothing emitted, taking_plain_text == true)
+pub proof fn lemma_feed_from_start(data: Seq<char>, utf8: bool) //#lemma: C03 C19
+    ensures ({
+        let w0 = World { consumed: Seq::<char>::empty(), log: Seq::<Ev>::empty(), utf8: utf8 };
+        let r = pfold((w0, true), data);
+        r.0.log =~= gfold(St::Ground, data, utf8).1 && r.1 == (gfold(St::Ground, data, utf8).0 is Ground)
+    }),
+{
+    let w0 = World { consumed: Seq::<char>::empty(), log: Seq::<Ev>::empty(), utf8: utf8 };
+    lemma_feed_grammar(w0, true, data);
+    assert(w0.log + gfold(St::Ground, data, utf8).1 =~= gfold(St::Ground, data, utf8).1);
+}
+/// sanity of the grammar (C03: "every character outside a control sequence is delivered as text exactly once and in order"):
+/// text without special characters is drawn character by character and leaves the recogniser in its ground state
+pub proof fn lemma_plain_text(data: Seq<char>, utf8: bool) //#lemma: C03
+    requires forall|i: int| 0 <= i < data.len() ==> !is_special(#[trigger] data[i]),
+    ensures
+        gfold(St::Ground, data, utf8).0 is Ground,
+        gfold(St::Ground, data, utf8).1 =~= Seq::new(data.len(), |i: int| Ev::Draw { c: data[i] }),
+    decreases data.len(),
+{
+    if data.len() > 0 {
+        lemma_plain_text(data.drop_first(), utf8);
+    }
+}
+/// the recogniser's position never depends on the use_utf8 flag (only what it emits does)
+pub proof fn lemma_state_indep_utf8(inp: Seq<char>, a: bool, b: bool) //#lemma: C03
+    ensures run(inp, a).0 == run(inp, b).0,
+    decreases inp.len(),
+{
+    if inp.len() > 0 { lemma_state_indep_utf8(inp.drop_last(), a, b); }
+}
+
 // ---- TRUSTED call-out shims (bodies are the original expressions) -------------------------------------
 impl<'a, T> Parser<'a, T> where T: ParserListener + Send + 'a {
-    /// `Self::is_special_start(&S)` for a one-character string S
-    #[verifier::external_body]
-    pub fn shim_is_special_start(s: &String) -> (r: bool)
-        requires s@.len() == 1,
-        ensures r == is_special(s@[0]),
-    { unimplemented!() }
-
     /// Parser::set_use_utf8 (`self.parser_state.lock().unwrap().use_utf8 = B`): ASSUMED effect on the shared flag
     #[verifier::external_body]
     pub fn set_use_utf8(&mut self, use_utf8: bool)
@@ -247,3 +336,53 @@ pub proof fn lemma_bytes_chunking(d: DecState, s: (World, bool), a: Seq<u8>, b: 
 #[verifier::external_body]
 pub proof fn axiom_str_ext(a: &str, b: &str)
     ensures (a@ == b@) == (a == b) {}
+
+// ---- the SPECIAL table ---------------------------------------------------------------------------------
+/// membership in the documented SPECIAL table, by character sequence
+pub open spec fn special_has(s: Seq<char>) -> bool { s.len() == 1 && is_special(s[0]) }
+/// TRUSTED (std): `&str` hashes and compares by content (vstd states the key model for primitive keys only)
+#[verifier::external_body]
+pub proof fn axiom_str_key_model()
+    ensures vstd::std_specs::hash::obeys_key_model::<&'static str>() {}
+/// the values of the constants the SPECIAL table is built from (extracted verbatim; ascii!(hi/lo) evaluated mechanically)
+pub proof fn lemma_special_consts() //#lemma: C03 C19
+    ensures
+        ESC@ == seq!['\u{1b}'], CSI@ == seq!['\u{9b}'], OSC@ == seq!['\u{9d}'],
+        BASIC@.len() == 9,
+        BASIC@[0]@ == seq!['\u{7}'], BASIC@[1]@ == seq!['\u{8}'], BASIC@[2]@ == seq!['\u{9}'], BASIC@[3]@ == seq!['\u{a}'], BASIC@[4]@ == seq!['\u{b}'],
+        BASIC@[5]@ == seq!['\u{c}'], BASIC@[6]@ == seq!['\u{d}'], BASIC@[7]@ == seq!['\u{e}'], BASIC@[8]@ == seq!['\u{f}'],
+{
+    reveal_strlit("\u{1b}"); reveal_strlit("\u{009B}"); reveal_strlit("\u{009D}");
+    reveal_strlit("\u{7}"); reveal_strlit("\u{8}"); reveal_strlit("\u{9}"); reveal_strlit("\u{a}"); reveal_strlit("\u{b}");
+    reveal_strlit("\u{c}"); reveal_strlit("\u{d}"); reveal_strlit("\u{e}"); reveal_strlit("\u{f}");
+}
+/// a one-character string is an element of BASIC exactly when its character is one of the nine C0 controls
+pub proof fn lemma_basic_members(s: Seq<char>) //#lemma: C03 C19
+    ensures (exists|j: int| 0 <= j < 9 && (#[trigger] BASIC@[j])@ == s) == (s.len() == 1 && is_basic(s[0])),
+{
+    lemma_special_consts();
+    if s.len() == 1 && is_basic(s[0]) {
+        let j = (s[0] as u32 - 7) as int;
+        assert(BASIC@[j]@ =~= s);
+    }
+}
+/// the documented SPECIAL set, element by element
+pub proof fn lemma_special_has(s: Seq<char>) //#lemma: C03 C19
+    ensures special_has(s) == (s == ESC@ || s == CSI@ || s == OSC@ || exists|j: int| 0 <= j < 9 && (#[trigger] BASIC@[j])@ == s),
+{
+    lemma_special_consts();
+    lemma_basic_members(s);
+    if s.len() == 1 {
+        assert(s =~= seq![s[0]]);
+        assert((s == ESC@) == (s[0] as u32 == 0x1b));
+        assert((s == CSI@) == (s[0] as u32 == 0x9b));
+        assert((s == OSC@) == (s[0] as u32 == 0x9d));
+    }
+}
+/// `SPECIAL.iter().any(|special| s.starts_with(special))`: some element of the SPECIAL table is a prefix of s.
+/// TRUSTED: a lazy_static deref yields its initialiser's value (whose members are PROVED to be special_has, fn SPECIAL),
+/// HashSet::iter visits every element, str::starts_with is the prefix test.
+#[verifier::external_body]
+pub fn special_any_prefix(s: &str) -> (r: bool)
+    ensures r == exists|k: Seq<char>| special_has(k) && #[trigger] k.is_prefix_of(s@),
+{ unimplemented!() }
